@@ -3,6 +3,11 @@
 import json, os
 V = os.path.dirname(os.path.dirname(os.path.abspath(__file__)))
 
+
+def tfiles(names):
+    """template file names: <name>.grl, or <name>.recipe.json for recipes (multi-resource / partial builds)"""
+    return [t + (".grl" if os.path.exists(os.path.join(V, "templates", t + ".grl")) else ".recipe.json") for t in names]
+
 fErr, fRetract, fCancel, fDeleted, fFlag, fListen, fTwoEff, fActErr = 1, 2, 4, 8, 16, 32, 64, 128
 STUBS = ["ast/WhenScope.go:WhenScope.Evaluate", "ast/ThenScope.go:ThenScope.Execute"]
 TIERA_H = [["engine", "harness/engine"], ["ast", "harness/ast_stubs"]]
@@ -67,13 +72,13 @@ P["C03"] = {
     "design_ref": "DESIGN.md §8 C03, Appendix B", "assumptions": TIERA_ASSUME,
     "bounds": "Tier A: n <= 4 rules, K <= 3 firings, saliences over the whole int32 range incl. ties and negatives; Tier K: every int64 salience literal",
     "outside": "runs longer than K firings; more than n rules; the salience text -> integer step of the ANTLR listener (ParseInt is native)",
-    "runs": [tierA(3, 2, 0, QT), tierA(3, 2, fDeleted | fRetract, Q), salienceK(QT),
+    "runs": [tierA(3, 2, 0, QT), tierA(3, 2, fDeleted | fRetract, Q), tierA(2, 2, fErr, QT), salienceK(QT),
              tierA(4, 2, 0, T), tierA(3, 3, fRetract, T), tierA(4, 2, fDeleted, T), tierA(3, 2, fErr | fFlag, T)]}
 P["C06"] = {
     "design_ref": "DESIGN.md §8 C06, Appendix B", "assumptions": TIERA_ASSUME,
     "bounds": "Tier A: n <= 3 rules, K <= 4 firings, MaxCycle a symbolic uint64 (budgets 0..K decided exactly, larger budgets are 'not reached'), 0-2 listeners",
     "outside": "runs longer than K firings (the engine loop is not cut inductively); listeners that panic",
-    "runs": [tierA(2, 2, fListen | fErr | fFlag, Q), tierA(3, 2, 0, QT), tierA(2, 2, fRetract | fDeleted, Q),
+    "runs": [tierA(2, 2, fListen | fErr | fFlag, Q), tierA(3, 2, 0, QT), tierA(2, 2, fRetract | fDeleted, Q), tierA(2, 2, fCancel | fListen, QT),
              tierA(3, 3, fListen, T), tierA(2, 3, fErr | fFlag | fRetract, T), tierA(2, 4, 0, T), tierA(3, 2, fErr | fFlag | fRetract | fDeleted, T)]}
 P["C10"] = {
     "design_ref": "DESIGN.md §8 C10, Appendix B", "assumptions": TIERA_ASSUME,
@@ -138,18 +143,22 @@ P["C12"] = {
              tierC("VerifTierCWriterFault", "two", [], T, ["tierC:faulty-store-returned"], "every index of a failing Write call while storing template two"),
              ]}
 
-TB_SETS = {
-    "memo": ["b_basic", "b_toplevel", "b_slice_sel", "b_slice", "b_map", "b_nested", "b_short", "b_shared", "b_forget", "b_ptrswap", "b_forgetcall", "b_chain", "b_failshared", "b_elemfield"],
-    "control": ["b_retract", "b_fail", "b_nilptr", "b_actfail"],
-    "values": ["b_compound", "b_args", "b_float", "b_string"],
-}
+def _tbsets():
+    """the template sets are defined once, in harness/zztier/tierb.go (var tbSets)"""
+    import re
+    go = open(os.path.join(V, "harness", "zztier", "tierb.go")).read()
+    body = re.search(r'var tbSets = map\[string\]\[\]string\{(.*?)\n\}', go, re.S).group(1)
+    return {m.group(1): re.findall(r'"([^"]+)"', m.group(2)) for m in re.finditer(r'"(\w+)":\s*\{([^}]*)\}', body)}
+
+
+TB_SETS = _tbsets()
 FLAGN = {1: "perm", 2: "symsal", 4: "nilP"}
 
 
 def tierB(setname, k, flags, tiers, **kw):
     fn = "+".join(n for b, n in FLAGN.items() if flags & b) or "plain"
     r = {"name": "tierB-%s-k%d-%s" % (setname, k, fn), "pkgdir": "zztier", "harness": TIERC_H, "entry": "VerifTierBSet", "args": [setname, k, flags],
-         "tiers": tiers, "templates": [t + ".grl" for t in TB_SETS[setname]], "replay_attempts": 150,
+         "tiers": tiers, "templates": tfiles(TB_SETS[setname]), "replay_attempts": 150,
          "require_reach": ["tierB:execute-returned", "tierB:a-rule-fired", "tierB:quiescent"],
          "bounds": "template set '%s' (%s): real ASTs built natively, all fact scalars symbolic (integers |v|<1000, floats |v|<1000, bools), <= %d firings; %s" % (
              setname, ", ".join(TB_SETS[setname]), k, {"plain": "rule order = sorted", "perm": "every iteration order of RuleEntries", "perm+symsal": "every iteration order, symbolic saliences in [-100,100]"}.get(fn, fn))}
@@ -178,11 +187,10 @@ P["C13"] = {
 def memoStep(setname, state, tiers):
     sn = {0: "filled", 1: "empty", 2: "alternating-a", 3: "alternating-b"}[state]
     return {"name": "memo-step-%s-%s" % (setname, sn), "pkgdir": "zztier", "harness": TIERC_H, "entry": "VerifMemoStep", "args": [setname, state], "tiers": tiers,
-            "templates": [t + ".grl" for t in TB_SETS[setname]], "require_reach": ["memo:step-executed", "memo:remembered-expression-checked"], "compare_events": False,
+            "templates": tfiles(TB_SETS[setname]), "require_reach": ["memo:step-executed", "memo:remembered-expression-checked"], "compare_events": False,
             "bounds": "inductive memo step on every template of set '%s': arbitrary (symbolic) facts, memo state '%s' consistent with them, ONE arbitrary rule's action list; afterwards every node still marked Evaluated holds the memo-free value (invariant INV, which implies C01/C02 in every later cycle: no run-length bound for these templates)" % (setname, sn)}
 
 
-TB_SETS["json"] = ["j_basic"]
 for pid in ("C01", "C02"):
     P[pid]["runs"] += [memoStep("json", 0, QT), tierB("json", 2, 0, T), tierB("json", 3, 1, T)]
     P[pid]["bounds"] += "; JSON facts: template j_basic (member, nested member, array element, string and bool members, mixed with a Go fact) on a decoded JSON tree with symbolic leaves"
@@ -193,7 +201,7 @@ for pid in ("C01", "C02", "C13"):
     P[pid]["outside"] = P[pid]["outside"].replace("; the inductive memo step of DESIGN §8 is not built", "").replace("; the inductive 'one sweep performs zero calls' step is not built", "")
 
 def loadedRun(entry, setname, extra, tiers, name):
-    return {"name": name, "pkgdir": "zztier", "harness": TIERC_H, "entry": entry, "args": [setname] + extra, "tiers": tiers, "templates": [t + ".grl" for t in TB_SETS[setname]],
+    return {"name": name, "pkgdir": "zztier", "harness": TIERC_H, "entry": entry, "args": [setname] + extra, "tiers": tiers, "templates": tfiles(TB_SETS[setname]),
             "replay_attempts": 150, "compare_events": False, "extra_label_prefixes": ["C12:load-succeeds"],
             "bounds": "%s on the knowledge bases of set '%s' LOADED BACK from their GRB image (store -> load in the executor; the loader rebuilds the working-memory index maps)" % (entry, setname)}
 
@@ -201,7 +209,7 @@ def loadedRun(entry, setname, extra, tiers, name):
 P["C02"]["runs"] += [loadedRun("VerifMemoStepLoaded", "memo", [0], T, "memo-step-loaded-filled"), loadedRun("VerifTierBSetLoaded", "memo", [3, 0], T, "tierB-loaded-memo-k3")]
 P["C02"]["bounds"] += "; thorough: the same on knowledge bases loaded back from their GRB image"
 P["C12"]["runs"] += [{"name": "tierc-equivalence-memo", "pkgdir": "zztier", "harness": TIERC_H, "entry": "VerifTierCEquiv", "args": ["memo"], "tiers": QT,
-                      "templates": [t + ".grl" for t in TB_SETS["memo"]], "require_reach": ["tierC:equiv-loaded"], "compare_events": False,
+                      "templates": tfiles(TB_SETS["memo"]), "require_reach": ["tierC:equiv-loaded"], "compare_events": False,
                       "bounds": "every rule of the 13 templates of set 'memo': instance of the stored vs. of the loaded vs. of the twice-loaded knowledge base on copies of the same symbolic facts (candidate flag and all resulting facts equal)"},
                      dict(loadedRun("VerifMemoStepLoaded", "memo", [0], T, "memo-step-loaded-filled"), extra_label_prefixes=["C01:", "C02:", "C12:load-succeeds"]),
                      dict(loadedRun("VerifTierBSetLoaded", "memo", [3, 0], T, "tierB-loaded-memo-k3"), extra_label_prefixes=["C01:", "C02:", "C12:load-succeeds"])]
@@ -221,14 +229,13 @@ ALLB = sorted(set(sum(TB_SETS.values(), [])) | {"b_argshare", "two", "tiny"})
 
 def c09(setname, k, tiers, **kw):
     r = {"name": "c09-%s-k%d" % (setname, k), "pkgdir": "zztier", "harness": TIERC_H, "entry": "VerifC09Set", "args": [setname, k], "tiers": tiers,
-         "templates": [t + ".grl" for t in TB_SETS[setname]], "require_reach": ["c09:instances-created", "c09:both-executed"], "compare_events": False,
+         "templates": tfiles(TB_SETS[setname]), "require_reach": ["c09:instances-created", "c09:both-executed"], "compare_events": False,
          "model_only_labels": ["C09:model:*"],
          "bounds": "template set '%s': real NewKnowledgeBaseInstance (all Clone methods, WorkingMemory.Clone, IsIdentical) in the executor; heap isomorphism incl. sharing and the five working-memory maps; reachability; read/write footprints of creation and of two runs on independent symbolic facts, <= %d firings each" % (setname, k)}
     r.update(kw)
     return r
 
 
-TB_SETS["clone"] = ["b_argshare", "b_shared", "b_short", "b_retract", "b_map", "b_slice_sel", "b_forgetcall", "two"]
 P["C09"] = {
     "design_ref": "DESIGN.md §8 C09", "assumptions": TIERB_ASSUME + [
         "interference freedom is decided on footprints: W1 disjoint from R2+W2 and W2 disjoint from R1 for all fact values => every interleaving of the two executions is data-race free and equivalent to a sequential one (DRF argument); scheduling itself is not executed",
@@ -238,17 +245,24 @@ P["C09"] = {
     "outside": "rule sets outside the template family; more than 3 instances; races inside stubbed dependencies; GOMAXPROCS is immaterial to the argument",
     "runs": [c09("clone", 2, QT), tierB("memo", 3, 0, T)]}
 
-TB_SETS["reuse"] = ["b_unread", "b_retract", "b_basic"]
-TB_SETS["reuseq"] = ["b_unread", "b_basic"]
 
 
 def reuseB(setname, k, tiers):
     return {"name": "tierB-reuse-%s-k%d" % (setname, k), "pkgdir": "zztier", "harness": TIERC_H, "entry": "VerifTierBReuse", "args": [setname, k, 0], "tiers": tiers,
-            "templates": [t + ".grl" for t in TB_SETS[setname]], "replay_attempts": 150, "require_reach": ["tierB:second-call", "tierB:both-calls-fired"],
+            "templates": tfiles(TB_SETS[setname]), "replay_attempts": 150, "require_reach": ["tierB:second-call", "tierB:both-calls-fired"],
             "bounds": "two Execute calls on ONE instance of each template of set '%s', each with a new data context and its own symbolic facts, <= %d firings per call" % (setname, k)}
 
 
-P["C08"]["runs"] += [reuseB("reuseq", 2, QT), reuseB("reuse", 2, T)]
+def reuseSameDC(setname, k, tiers):
+    r = reuseB(setname, k, tiers)
+    r.update(name="tierB-reuse-same-dc-%s-k%d" % (setname, k), entry="VerifTierBReuseSameDC", args=[setname, k],
+             bounds="two Execute calls on ONE instance of each template of set '%s' with the SAME data context and fact objects, whose (symbolic) values the host program changes between the calls; <= %d firings per call" % (setname, k))
+    return r
+
+
+P["C08"]["runs"] += [reuseB("reuseq", 2, QT), reuseB("reuse", 2, T), reuseSameDC("reuseq", 2, QT), reuseSameDC("reuse", 2, T)]
+P["C01"]["runs"] += [reuseSameDC("reuseq", 2, QT)]
+P["C01"]["bounds"] += "; the same data context passed to two Execute calls with host-side changes in between (nothing remembered from the first call may be served in the second)"
 P["C08"]["assumptions"] = TIERA_ASSUME + TIERB_ASSUME
 P["C08"]["bounds"] += "; Tier B: two calls on one instance of real templates with independent symbolic facts: memo-free oracle throughout the second call, the first caller's facts untouched by the second call"
 P["C04"] = {
@@ -298,11 +312,10 @@ P["C16"]["outside"] = "histories outside the 7 recipes; symbolic rule names (the
 
 def fetchTwice(setname, tiers):
     return {"name": "tierB-fetch-twice-%s" % setname, "pkgdir": "zztier", "harness": TIERC_H, "entry": "VerifFetchTwice", "args": [setname], "tiers": tiers,
-            "templates": [t + ".grl" for t in TB_SETS[setname]], "require_reach": ["tierB:second-fetch"], "compare_events": False,
+            "templates": tfiles(TB_SETS[setname]), "require_reach": ["tierB:second-fetch"], "compare_events": False,
             "bounds": "FetchMatchingRules twice on one instance and one data context of each template of set '%s', the host changing the (symbolic) facts in between" % setname}
 
 
-TB_SETS["fetch"] = ["b_basic", "b_short", "b_map", "b_slice", "b_nested", "b_shared"]
 P["C11"]["runs"].append(fetchTwice("fetch", QT))
 P["C11"]["assumptions"] = TIERA_ASSUME + TIERB_ASSUME
 P["C11"]["bounds"] += "; Tier B: real conditions of 6 templates on symbolic facts, FetchMatchingRules called twice on one instance and data context with host-side fact changes in between (result = exactly the rules whose condition holds now)"
@@ -316,12 +329,17 @@ P["C20"] = {
         "over-allocation is decided at every make() whose size derives from the input: the executor asserts size*elemsize <= 4*len(input) + 128 KiB for ALL values of the mutated field (solver), then continues with representative sizes (0, 1, two solver-chosen) - explicit concretisation",
         "hang / stack exhaustion = a path exhausting the executor's per-path instruction or call-depth budget (reported as a violation); wall-clock time and RSS are not measured",
         "native confirmation of an allocation counterexample: the replay allocates more than 8x the policy (runtime.MemStats.TotalAlloc) or the process dies with 'out of memory'"],
-    "bounds": "GRB stream of template tiny (8 KB, 133 eight-byte fields; thorough: template two, 24 KB): every 8-byte field (length prefix, element count, node type, salience, float payload, value type) replaced, one at a time, by 8 fully symbolic bytes; salience literal: every int64; JSON rule translator: 24 rule shapes incl. wrong types at every position, nesting depth 1100; truncation of the GRB stream at every offset (C12's run)",
+    "bounds": "GRB stream of template tiny (8 KB, 133 eight-byte fields; thorough: template two, 24 KB): every 8-byte field (length prefix, element count, node type, salience, float payload, value type) replaced, one at a time, by 8 fully symbolic bytes; the head of every longer read (nested length prefix of string constants, text, snapshots - symbolic strings as map keys are resolved by forking against the keys present) likewise; salience literal: every int64; JSON rule translator: 24 rule shapes incl. wrong types at every position, nesting depth 1100; truncation of the GRB stream at every offset (C12's run)",
     "outside": "GRL text through the ANTLR lexer/parser and JSON facts / JSON rule TEXT through encoding/json on symbolic bytes (not reachable by this technique, DESIGN §9); mutations that edit more than one field or splice strings; time and memory are bounded symbolically (loop/alloc bounds), not measured",
     "runs": [dict(tierC("VerifC20Field", "tiny", [0, -1], QT, ["c20:load-returned", "c20:field-mutated"], "every 8-byte field of template tiny's stream replaced by symbolic bytes"),
                   extra_label_prefixes=["alloc-bounded:"], replay_each_in_own_process=True, compare_events=True),
              dict(tierC("VerifC20Splice", "tiny", [], QT, ["c20:splice-load-returned", "c20:id-spliced"], "every id-sized string of template tiny's stream replaced, one at a time, by the id of the node being read (a node naming itself as its child): the loader terminates within the budget"),
                   replay_each_in_own_process=True),
+             dict(tierC("VerifC20Blob", "b_string", [], QT, ["c20:blob-load-returned", "c20:blob-head-mutated"], "the first 8 bytes of every longer read (text, snapshot, constant payload with its nested length prefix, version) of template b_string's stream replaced, one at a time, by 8 symbolic bytes"),
+                  extra_label_prefixes=["alloc-bounded:"], replay_each_in_own_process=True, compare_events=True),
+             dict(tierC("VerifC20Blob", "b_float", [], T, ["c20:blob-load-returned", "c20:blob-head-mutated"], "the same on template b_float's stream"),
+                  extra_label_prefixes=["alloc-bounded:"], replay_each_in_own_process=True),
+             dict(tierC("VerifC20SnapshotLinear", "s_shapes", [], QT, ["c20:snapshot-nodes-walked"], "GRL text part: for every node (333, every alternative of the expression grammar) of template s_shapes as built by the real parser, the node's snapshot is no longer than 32 + 4 per child + 6x its own identifier text + the snapshots of its direct children - by induction snapshots (computed by the listener for every node) stay linear in the text; CONCRETE enumeration of nodes executed from SSA, not solver-quantified"), no_native=False),
              dict(salienceK(QT), name="salience-literal"),
              {"name": "c18-malformed", "pkgdir": "pkg", "harness": [["pkg", "harness/pkg"]], "entry": "VerifC18Malformed", "tiers": QT, "require_reach": ["c18:malformed-case"], "bounds": "24 JSON rule shapes through pkg.ParseRule"},
              {"name": "json-rule-text", "pkgdir": "pkg", "harness": [["pkg", "harness/pkg"]], "entry": "VerifC20JSONText", "tiers": QT, "require_reach": ["c20:json-text"],
@@ -354,6 +372,9 @@ P["C05"] = {
 P["C04"]["runs"].append(tierB("json", 2, 0, T))
 P["C04"]["bounds"] = P["C04"]["bounds"].replace("22 assignment cases", "28 assignment cases (6 on JSON members)")
 P["C04"]["outside"] = "values outside the destination range; map entries of another kind than the element type (the property excludes them); rule sets outside the family; JSON facts are decoded trees with symbolic leaves (json.Unmarshal itself is native)"
+P["C03"]["runs"].append(dict(tierC("VerifTierCRoundTrip", "two", [1], QT, ["tierC:stored", "tierC:loaded"], "saliences (symbolic, int32) survive store -> load -> store -> load"),
+                               extra_label_prefixes=["C12:first-load:same-salience", "C12:second-load:same-salience"]))
+P["C03"]["bounds"] += "; the salience of every rule (symbolic int32) survives the binary store/load round trip"
 
 json.dump({"properties": P}, open(os.path.join(V, "checks.json"), "w"), indent=1)
 print("properties:", sorted(P))
